@@ -343,7 +343,15 @@ def derive(base, metas, rng, per_file_cuts):
 def recover_all(states, tag):
     d = run_dir()
     lf, of = os.path.join(d, "list_%s.txt" % tag), os.path.join(d, "recover_%s.out" % tag)
-    res, todo, note = {}, [s["dir"] for s in states], ""
+    res, note = {}, ""
+    # a Manager keeps a few descriptors open after Close: at most 1200 directories per process
+    if len(states) > 1200:
+        for k in range(0, len(states), 1200):
+            r, n = recover_all(states[k:k + 1200], tag)
+            res.update(r)
+            note = (note + " " + n).strip()
+        return res, note
+    todo = [s["dir"] for s in states]
     rounds = 0
     while todo and rounds < 6:
         rounds += 1
@@ -776,9 +784,9 @@ def main(tier, seed, replay=None):
         scens = [json.load(open(replay))["scenario"]]
     else:
         scens = load_corpus() + [scen_tags()]      # corpus/C12: merge-shadow, mark-text
-        nrand = 8 if tier == "quick" else 150
+        nrand = 8 if tier == "quick" else 60
         scens += [gen_scenario(rng, k) for k in range(nrand)]
-    cuts = 2 if tier == "quick" else 12
+    cuts = 2 if tier == "quick" else 6
     nviol, nstates, kinds, known_hits, examined = 0, 0, {}, [], 0
     notes, samples = [], []
     reported = set()
@@ -798,7 +806,7 @@ def main(tier, seed, replay=None):
     for (scen, (base, evs, note)) in zip(tscens, run_traced(tscens)):
         if note:
             notes.append("%s: %s" % (scen["name"], note))
-        metas, states = trace_states(base, evs, rng, 110 if tier == "quick" else 1500)
+        metas, states = trace_states(base, evs, rng, 110 if tier == "quick" else 400)
         if not states and not note:
             notes.append("%s: the system call trace yielded no file operation (strace output not understood)" % scen["name"])
         per.append((scen, base, metas, states))
